@@ -595,9 +595,10 @@ def do_check(check, tier, seed):
         if path:
             log("VIOLATION property=%s replay=%s" % (target[0], path))
             log("  class=%s site=%s :: %s" % (target[1], target[2], (detail or "")[:300]))
-        else:
-            log("VIOLATION property=%s replay=none (class %s at %s; more than %d classes, not minimised)" % (
-                target[0], target[1], target[2], MAX_CLASSES))
+    extra = [t for t, path, _ in reported if not path]
+    if extra:
+        log("further violation classes of %s seen but not minimised (limit %d per run): %s" % (
+            check, MAX_CLASSES, ", ".join("%s@%s" % (t[1], t[2]) for t in extra[:40])))
     if machinery_errors or audit_fail:
         for m in machinery_errors:
             log("MACHINERY-ERROR: " + m)
